@@ -1434,9 +1434,13 @@ impl RustGenerator {
                 let time_expr = self.word0_expr(time)?;
                 writer.line("{")?;
                 writer.indented(1, |writer| {
+                    // operands first: they may read `self.memory`, which cannot happen while
+                    // the state storage is borrowed from `self`
+                    writer.line(format!("let delay_input = {src_expr};"))?;
+                    writer.line(format!("let delay_time = {time_expr};"))?;
                     writer.line("let state = self.get_current_statestorage();")?;
                     writer.line(format!(
-                        "{dest}[0] = state.delay({src_expr}, {time_expr}, {}usize);",
+                        "{dest}[0] = state.delay(delay_input, delay_time, {}usize);",
                         max_len
                     ))
                 })?;
@@ -1447,8 +1451,9 @@ impl RustGenerator {
                 let src_expr = self.scalar_word_expr(func, src)?;
                 writer.line("{")?;
                 writer.indented(1, |writer| {
+                    writer.line(format!("let mem_input = {src_expr};"))?;
                     writer.line("let state = self.get_current_statestorage();")?;
-                    writer.line(format!("{dest}[0] = state.mem({src_expr});"))
+                    writer.line(format!("{dest}[0] = state.mem(mem_input);"))
                 })?;
                 writer.line("}")?;
             }
